@@ -133,6 +133,9 @@ func checkTables(c *mon.Ctx, stage string, idx int64, r *rand.Rand, kind refts.T
 	var psi *astits.PSIData
 	var perr error
 	in := append([]byte{}, u.Payload...) // a buffer of its own, overwritten below
+	if idx%2 == 1 {
+		in = reusedBuf("c13", u.Payload)
+	}
 	if p, v, st := mon.Guarded(func() { psi, perr = astits.VerifParsePSIData(in) }); p {
 		c.Violate("C13/header/panic", stage, idx, fmt.Sprintf("%v\n%s", v, st), data)
 	} else if perr != nil {
